@@ -49,6 +49,16 @@ def chars_of_pat(p):
     return out
 
 
+def _chars_of_any(p):
+    """char set of a pattern, looking through `Some(..)`, bindings `c @ ..` and or-patterns; None if not a char set"""
+    k = p.get("k")
+    if k == "PTupleStruct" and last_seg(norm(p["res"].get("path", ""))) == "Some" and len(p.get("pats", [])) == 1:
+        return _chars_of_any(p["pats"][0])
+    if k == "PBinding":
+        return _chars_of_any(p["sub"]) if p.get("sub") else None
+    return chars_of_pat(p)
+
+
 def rule_alpha(E, R):
     rule = "R17-alpha"
     fn = "<rhs_types::list::ListName as lex::Lex>::lex"
@@ -57,70 +67,75 @@ def rule_alpha(E, R):
         return R.cannot(rule, fn, "anchor not found")
     body = h["body"]
     want = set("abcdefghijklmnopqrstuvwxyz0123456789_.")
-    # the arm that pushes the char
-    got = None
-    for m in find_matches(body, r"^char$"):
-        acc = set()
-        any_push = False
+    # the accumulator: a String local that receives `push(char)`
+    accs = {local_name(c["recv"]) for c in exprs(body, "MethodCall") if c["m"] == "push" and norm(c["recv"].get("ty", "")).endswith("string::String")}
+    accs.discard(None)
+    if len(accs) != 1:
+        return R.cannot(rule, fn, "could not identify the name accumulator (%s)" % sorted(accs))
+    acc = accs.pop()
+    got = set()
+    ok_extract = True
+    n_arms = 0
+    for m in exprs(body, "Match"):
         for a in m["arms"]:
-            pushes = [c for c in exprs(a["body"], "MethodCall") if c["m"] == "push" and local_name(c["recv"]) == "res"]
-            if not pushes:
+            pushes = [c for c in exprs(a["body"], "MethodCall", into_closures=False) if c["m"] == "push" and local_name(c["recv"]) == acc]
+            if not pushes or any(True for mm in exprs(a["body"], "Match")):
                 continue
-            any_push = True
+            n_arms += 1
             if "guard" in a:
-                # an arm admitted by a predicate: map known ASCII predicates to their sets, anything else is too wide
                 preds = [last_seg(norm(c.get("callee", ""))) for c in exprs(a["guard"], ("Call", "MethodCall"))]
                 known = {"is_ascii_lowercase": set("abcdefghijklmnopqrstuvwxyz"), "is_ascii_digit": set("0123456789")}
-                unknown = [p for p in preds if p not in known]
-                base = chars_of_pat(a["pat"]) if a["pat"].get("k") not in ("PBinding", "PWild") else None
-                if unknown or not preds or any(b != "Or" for b in binops(a["guard"]) if b in ("And", "Or")) and False:
+                unknown = [p_ for p_ in preds if p_ not in known]
+                if unknown or not preds:
                     R.violation(rule, fn, "list-name characters admitted by predicate %s" % (unknown or preds),
                                 "the documented alphabet is a-z 0-9 _ . ; a predicate such as char::is_lowercase / is_alphanumeric also "
                                 "admits non-ASCII letters", a["sp"])
-                    acc = None
-                    break
+                    ok_extract = False
+                    continue
                 for p_ in preds:
-                    acc |= known[p_]
+                    got |= known[p_]
+                cs = _chars_of_any(a["pat"])
+                if cs:
+                    got |= cs
             else:
-                cs = chars_of_pat(a["pat"])
+                cs = _chars_of_any(a["pat"])
                 if cs is None:
-                    acc = None
-                    break
-                acc |= cs
-        if any_push:
-            got = acc
-    if got is None:
-        if not any(r.status == "violation" and r.rule == rule for r in R.results):
-            R.cannot(rule, fn, "could not extract the accepted character set")
-    else:
+                    ok_extract = False
+                    R.violation(rule, fn, "list-name characters admitted by an open pattern", "an arm that pushes the character does not "
+                                "restrict it to a set of literals/ranges", a["sp"])
+                else:
+                    got |= cs
+    if n_arms == 0:
+        R.cannot(rule, fn, "could not extract the accepted character set")
+    elif ok_extract:
         extra, missing = sorted(got - want), sorted(want - got)
-        R.check(got == want, rule, fn, "accepted characters are exactly a-z 0-9 _ .",
-                "extra %s missing %s" % (extra, missing), h["span"])
+        R.check(got == want, rule, fn, "accepted characters are exactly a-z 0-9 _ .", "extra %s missing %s" % (extra, missing), h["span"])
     # `$` required
     ex = [c for c in calls(body, r"^lex::expect$") if lit_value(c["args"][1]) == "$"]
     R.check(len(ex) >= 1, rule, fn, "`$` is required (expect(input, \"$\")?)", where=h["span"])
-    # empty name rejected: each break of the scan loop sits in the else-branch of `if res.is_empty() {return Err}`
-    n_break = 0
-    ok_break = True
-    for n, st in walk_arms(body):
-        if n.get("k") == "Break":
-            n_break += 1
-            guarded = False
-            for ent in st:
-                if ent[0] == "if" and ent[2] is False:
-                    guarded = True
-            ok_break = ok_break and guarded
-    empties = [i for i in exprs(body, "If") if any(c["m"] == "is_empty" and local_name(c["recv"]) == "res"
-               for c in exprs(i["cond"], "MethodCall")) and list(exprs(i["then"], "Ret"))]
-    R.check(n_break >= 1 and ok_break and len(empties) >= n_break, rule, fn, "an empty name is rejected on every exit of the scan loop",
-            "%d breaks, %d `if res.is_empty() { return Err }` guards" % (n_break, len(empties)), h["span"])
+    # an empty name is rejected for both ways the scan can stop (a foreign character, end of input)
+    empties = 0
+    for i in exprs(body, "If"):
+        if any(c["m"] == "is_empty" and local_name(c["recv"]) == acc for c in exprs(i["cond"], "MethodCall")) and explicit_err_returns(i["then"]):
+            empties += 1
+    for m in exprs(body, "Match"):
+        for a in m["arms"]:
+            if "guard" in a and any(c["m"] == "is_empty" and local_name(c["recv"]) == acc for c in exprs(a["guard"], "MethodCall")) and \
+                    explicit_err_returns(a["body"]):
+                empties += 1
+    n_break = len(list(exprs(body, "Break")))
+    R.check(empties >= 2 and n_break >= 1, rule, fn, "an empty name is rejected whether the scan stops at a foreign character or at the end of input",
+            "%d `is_empty() -> Err` guards for %d loop exits" % (empties, n_break), h["span"])
     # leading / trailing dot
     dot = False
     for i in exprs(body, "If"):
+        if not explicit_err_returns(i["then"]) or not any(o == "Or" for o in binops(i["cond"])):
+            continue
         ms = {c["m"] for c in exprs(i["cond"], "MethodCall")}
         lits = [x["lit"].get("v") for x in exprs(i["cond"], "Lit")]
-        if {"first", "last"} <= ms and lits.count(46) >= 2 and list(exprs(i["then"], "Ret")) \
-                and any(o == "Or" for o in binops(i["cond"])):
+        if {"first", "last"} <= ms and lits.count(46) >= 2:
+            dot = True
+        if {"starts_with", "ends_with"} <= ms and lits.count(".") >= 2:
             dot = True
     R.check(dot, rule, fn, "a leading or trailing `.` is rejected", where=h["span"])
 
